@@ -29,12 +29,12 @@ def main(tag, skip_confirm=False):
         rc, out = sh('/root/mkwt.sh eval-%s' % tag)
         assert rc == 0, out
         try:
-            rc, out = sh('git apply %s/demo.diff' % src, cwd=wt)
+            rc, out = sh('git apply %s/demo.diff || git apply --3way %s/demo.diff' % (src, src), cwd=wt)
             assert rc == 0, 'demo does not apply: ' + out
             rc, out = sh('cargo test --offline %s 2>&1 | grep -E "^test |test result"' % short, cwd=wt)
             ran.append('unmodified + demo: cargo test --offline %s -> %s' % (short, out.strip().split('\n')[-1]))
             base_pass = ' 0 failed' in out and re.search(r'[1-9]\d* passed', out) is not None
-            rc, out = sh('git apply %s/patch.diff' % src, cwd=wt)
+            rc, out = sh('git apply %s/patch.diff || git apply --3way %s/patch.diff' % (src, src), cwd=wt)
             assert rc == 0, 'patch does not apply: ' + out
             rc, out = sh('cargo test --offline 2>&1 | grep -E "^test .*FAILED|test result"', cwd=wt)
             ran.append('patched + demo: cargo test --offline -> %s' % out.strip().replace('\n', ' | '))
@@ -49,7 +49,7 @@ def main(tag, skip_confirm=False):
     # 2. run checks against the patched /repo
     rc, out = sh('git -C /repo status --porcelain')
     assert out.strip() == '', '/repo is dirty: ' + out
-    rc, out = sh('git -C /repo apply %s/patch.diff' % src)
+    rc, out = sh('git -C /repo apply %s/patch.diff || (git -C /repo apply --3way %s/patch.diff && git -C /repo reset -q)' % (src, src))
     assert rc == 0, out
     caught = {}
     try:
